@@ -49,6 +49,76 @@ Section Assoc.
     - destruct (eqb k k0); simpl; [reflexivity|]. now rewrite IH.
   Qed.
 
+  Lemma In_adel_keys {V} x (k : K) (d : list (K * V)) : In x (map fst (adel eqb k d)) -> In x (map fst d).
+  Proof.
+    induction d as [|[k0 v0] r IH]; simpl; [tauto|].
+    destruct (eqb k k0); simpl; [now right|]. intros [H|H]; [now left | right; now apply IH].
+  Qed.
+
+  Lemma adel_keys_nodup {V} (k : K) (d : list (K * V)) : NoDup (map fst d) -> NoDup (map fst (adel eqb k d)).
+  Proof.
+    induction d as [|[k0 v0] r IH]; simpl; intros H; [constructor|].
+    inversion H as [|? ? Hn Hr]; subst.
+    destruct (eqb k k0); simpl; [exact Hr|].
+    constructor; [|now apply IH]. intros HI. apply Hn. now apply In_adel_keys in HI.
+  Qed.
+
+  Lemma adel_map {V W} (f : V -> W) (k : K) (d : list (K * V)) :
+    adel eqb k (map (fun kv => (fst kv, f (snd kv))) d) = map (fun kv => (fst kv, f (snd kv))) (adel eqb k d).
+  Proof.
+    induction d as [|[k0 v0] r IH]; simpl; [reflexivity|].
+    destruct (eqb k k0); simpl; [reflexivity|]. now rewrite IH.
+  Qed.
+
+  Lemma eqb_refl' k : eqb k k = true.
+  Proof. now apply eqb_spec. Qed.
+
+  Lemma aget_not_in {V} (k : K) (d : list (K * V)) : ~ In k (map fst d) -> aget eqb k d = None.
+  Proof.
+    induction d as [|[k0 v0] r IH]; simpl; intros H; [reflexivity|].
+    destruct (eqb k k0) eqn:E.
+    - apply eqb_spec in E. subst. exfalso. apply H. now left.
+    - apply IH. intros HI. apply H. now right.
+  Qed.
+
+  Lemma aget_aset {V} (k k' : K) (v : V) d :
+    aget eqb k (aset eqb k' v d) = if eqb k k' then Some v else aget eqb k d.
+  Proof.
+    induction d as [|[k0 v0] r IH]; simpl.
+    - reflexivity.
+    - destruct (eqb k' k0) eqn:E; simpl.
+      + apply eqb_spec in E. subst k0. destruct (eqb k k'); reflexivity.
+      + rewrite IH. destruct (eqb k k0) eqn:E0; [|reflexivity].
+        apply eqb_spec in E0. subst k0. destruct (eqb k k') eqn:E1; [|reflexivity].
+        apply eqb_spec in E1. subst k'. rewrite eqb_refl' in E. discriminate.
+  Qed.
+
+  Lemma aget_adel {V} (k k' : K) (d : list (K * V)) :
+    NoDup (map fst d) -> aget eqb k (adel eqb k' d) = if eqb k k' then None else aget eqb k d.
+  Proof.
+    induction d as [|[k0 v0] r IH]; simpl; intros Hn.
+    - now destruct (eqb k k').
+    - inversion Hn as [|? ? Hx Hr]; subst.
+      destruct (eqb k' k0) eqn:E; simpl.
+      + apply eqb_spec in E. subst k0.
+        destruct (eqb k k') eqn:E1; [|reflexivity].
+        apply eqb_spec in E1. subst k'. now apply aget_not_in.
+      + rewrite (IH Hr). destruct (eqb k k0) eqn:E0; [|reflexivity].
+        apply eqb_spec in E0. subst k0. destruct (eqb k k') eqn:E1; [|reflexivity].
+        apply eqb_spec in E1. subst k'. rewrite eqb_refl' in E. discriminate.
+  Qed.
+
+  Lemma aget_in_iff {V} (k : K) (d : list (K * V)) : In k (map fst d) <-> aget eqb k d <> None.
+  Proof.
+    induction d as [|[k0 v0] r IH]; simpl.
+    - split; [intros [] | intros H; now apply H].
+    - destruct (eqb k k0) eqn:E.
+      + apply eqb_spec in E. subst. split; [discriminate | now left].
+      + split.
+        * intros [H|H]; [subst; rewrite eqb_refl' in E; discriminate | now apply IH].
+        * intros H. right. now apply IH.
+  Qed.
+
   (* reading a container whose items all parse, into distinct keys: the items in order *)
   Lemma collect_ok {V A} (f : A -> res (K * V)) (h : A -> K * V) l acc :
     (forall a, In a l -> f a = Ok (h a)) ->
@@ -216,7 +286,19 @@ Proof. reflexivity. Qed.
 
 (* the mapping a history of operations has written: last write per key wins, first insertion fixes the order *)
 Definition sq_sets (acc : index) (ops : list sq_op) : index :=
-  fold_left (fun a op => match op with SqSet k e => aset key_eqb k e a | _ => a end) ops acc.
+  fold_left (fun a op => match op with
+                         | SqSet k e => aset key_eqb k e a
+                         | SqDel k => adel key_eqb k a
+                         | _ => a
+                         end) ops acc.
+
+(* the same, key by key: the LAST write or removal of a key decides *)
+Definition sq_last (k : key) (ops : list sq_op) (cur : option ientry) : option ientry :=
+  fold_left (fun c op => match op with
+                         | SqSet k' e => if key_eqb k k' then Some e else c
+                         | SqDel k' => if key_eqb k k' then None else c
+                         | _ => c
+                         end) ops cur.
 
 Definition row_of (ke : key * ientry) : key * pydict := (fst ke, DataIndexEntry_to_dict (snd ke)).
 
@@ -225,15 +307,39 @@ Lemma sq_rows_run ops s acc :
 Proof.
   revert s acc. induction ops as [|op r IH]; intros s acc H; simpl.
   - exact H.
-  - apply IH. destruct op as [k e| |]; simpl; try exact H.
-    rewrite H. unfold row_of.
-    exact (aset_map key_eqb DataIndexEntry_to_dict k e acc).
+  - apply IH. destruct op as [k e|k| |]; simpl; try exact H.
+    + rewrite H. unfold row_of.
+      exact (aset_map key_eqb DataIndexEntry_to_dict k e acc).
+    + rewrite H. unfold row_of.
+      exact (adel_map key_eqb DataIndexEntry_to_dict k acc).
 Qed.
 
 Lemma sq_sets_nodup ops acc : NoDup (map fst acc) -> NoDup (map fst (sq_sets acc ops)).
 Proof.
   revert acc. induction ops as [|op r IH]; intros acc H; simpl; [exact H|].
-  apply IH. destruct op; try exact H. now apply (aset_keys_nodup key_eqb key_eqb_spec).
+  apply IH. destruct op; try exact H.
+  - now apply (aset_keys_nodup key_eqb key_eqb_spec).
+  - now apply (adel_keys_nodup key_eqb).
+Qed.
+
+Theorem sq_sets_last ops : forall acc k,
+  NoDup (map fst acc) -> aget key_eqb k (sq_sets acc ops) = sq_last k ops (aget key_eqb k acc).
+Proof.
+  induction ops as [|op r IH]; intros acc k Hn; simpl; [reflexivity|].
+  destruct op as [k' e|k'| |]; simpl.
+  - rewrite IH; [|now apply (aset_keys_nodup key_eqb key_eqb_spec)].
+    now rewrite (aget_aset key_eqb key_eqb_spec).
+  - rewrite IH; [|now apply (adel_keys_nodup key_eqb)].
+    now rewrite (aget_adel key_eqb key_eqb_spec).
+  - now apply IH.
+  - now apply IH.
+Qed.
+
+(* a key is listed after the final commit + close + reopen iff its last operation was a write *)
+Theorem sq_sets_keys ops k :
+  In k (map fst (sq_sets [] ops)) <-> sq_last k ops None <> None.
+Proof.
+  rewrite (aget_in_iff key_eqb key_eqb_spec). rewrite sq_sets_last; [reflexivity|constructor].
 Qed.
 
 Lemma sq_load_fresh s ke :
@@ -313,9 +419,10 @@ Example sqlite_nontrivial :
   let e1 := mk_ientry None (Some (mk_meta true None (Some 2) false None None None None None None None false None 1))
                       (Some (mk_hashinfo (Some k_md5) (Some [100;46;100;105;114]) None)) None in
   let e2 := mk_ientry (Some [[120]]) None None (Some false) in
-  let ops := [SqSet [] e1; SqSet [[97;47;98]; []] e2; SqCommit; SqReopen; SqSet [] e2] in
+  let ops := [SqSet [] e1; SqSet [[97;47;98]; []] e2; SqSet [[100]] e1; SqCommit; SqReopen; SqSet [] e2; SqDel [[100]]] in
   sq_unspec (sq_run ops sq_empty) = false /\
   sq_sets [] ops = [([], e2); ([[97;47;98]; []], e2)] /\
+  sq_last [[100]] ops None = None /\ sq_last [] ops None = Some e2 /\
   sq_items (sq_step (sq_step (sq_run ops sq_empty) SqCommit) SqReopen)
   = Ok [([], mk_ientry (Some []) None None (Some false));
         ([[97;47;98]; []], mk_ientry (Some [[97;47;98]; []]) None None (Some false))].
